@@ -18,7 +18,7 @@ func init() {
 			"D2 the comparators compare the same key of both operands (operand mirror) and CmpPackages covers name, version, extractor name and locations, cmpStatus the name, cmpFindings advisory reference and extra; " +
 			"D3 per-root results cannot alias loop-carried state: the walk context's inventory/errors/foundInv are re-initialised with fresh values on every path before each root's walk, Run appends exactly what that walk returned; Inventory.Append copies both packages and findings; " +
 			"D5 traversal state is stack-balanced: when gitignore handling is on, every directory for which the callback returns nil or SkipDir has pushed exactly one pattern set, the pop is under the same conditions and removes exactly one. " +
-			"Added in round 2: D3 additionally: no decision in Run skips a scan root, and the per-extractor found-inventory flag is only ever set to true. Added in round 3: the shared lazy file API is reset unconditionally for every file (also across roots); comparators never compare pointer identity. NOT decided: equality of result multisets across permutations of listing order as such (values); stability for fully tied packages.",
+			"Added in round 2: D3 additionally: no decision in Run skips a scan root, and the per-extractor found-inventory flag is only ever set to true. Added in round 3: the shared lazy file API is reset unconditionally for every file (also across roots); comparators never compare pointer identity. Added in round 8: D3 additionally: map fields of the walk context set only at construction (dirsToSkip) are never updated, deleted from or cleared during the walk. NOT decided: equality of result multisets across permutations of listing order as such (values); stability for fully tied packages.",
 		Run: runC08,
 		Controls: []Mutant{
 			{Name: "cmp-self", File: "scalibr.go", Old: "cmp.Compare(a.Extractor.Name(), b.Extractor.Name())", New: "cmp.Compare(a.Extractor.Name(), a.Extractor.Name())", Rule: "D2-mirror", Site: "CmpPackages"},
@@ -56,6 +56,7 @@ func runC08(p *Prog, r *Report) {
 		return e.isPerRootCall(callOf(in))
 	}, perRootErrorExits(e), "a scan root can be skipped without being walked (e.g. de-duplication by Path, which is empty for every virtual root): its packages and statuses are missing from the union")
 	mapOnlySetTrue(p, r, "D3-per-root", "walkContext", "foundInv", "extractor/filesystem", "the 'extractor found inventory' flag is overwritten per file instead of being sticky for the root: whether an extractor with one failing file is reported failed or partially succeeded depends on which of its files the walk reached last")
+	configMapsAreReadOnly(p, r, "D3-per-root", "extractor/filesystem", "walkContext")
 	c08Balanced(p, r, e, "D5-balanced")
 	r.Rule("D6-skipdir-only-for-directories", "the walk callback returns SkipDir only for a directory the skip predicate selected (shared with C01)")
 	skipDirOnlyForSkippedDirs(p, r, e, "D6-skipdir-only-for-directories")
